@@ -94,6 +94,8 @@ seed("C05.R4.revert-D4", "C05", "C05.R4:flush:new-ttl-independent-of-old", "dela
      (STORE, "                if value.header.time_to_live == 0 || time_to_live < value.header.time_to_live {\n                    value.header.time_to_live = time_to_live;\n                }", "                value.header.time_to_live = time_to_live;"))
 seed("C05.R4.append-resets-ttl", "C05", "C05.R4:field-write", "append lengthens the item's life",
      (MEMC, "                record.value = value.freeze();\n                self.set(key, record)\n            }\n            Err(_err) => Err(CacheError::NotFound),\n        }\n    }\n\n    pub fn prepend", "                record.value = value.freeze();\n                record.header.time_to_live = 0;\n                self.set(key, record)\n            }\n            Err(_err) => Err(CacheError::NotFound),\n        }\n    }\n\n    pub fn prepend"))
+seed("C05.R3.get-override-no-expiry", "C05", "C05.R3:Cache::get:hit-without-expiry-check", "MemoryStore overrides get without the expiry check",
+     ('memcrs/src/memory_store/store.rs', 'impl Cache for MemoryStore {\n', 'impl Cache for MemoryStore {\n    fn get(&self, key: &KeyType) -> Result<Record> {\n        impl_details::CacheImplDetails::get_by_key(self, key)\n    }\n\n'))
 # ---------------------------------------------------------------- C06
 seed("C06.R1.drop-addquiet", "C06", "C06.R1:store-method:0x12", "AddQuiet treated as replace",
      (HANDLER, "opcode == binary::Command::Add as u8 || opcode == binary::Command::AddQuiet as u8", "opcode == binary::Command::Add as u8"))
@@ -396,6 +398,8 @@ neutral("N.builder-if", 'from_config with if-let and early return',
         ('memcrs/src/memcache/builder.rs', '        let store: Arc<dyn Cache + Send + Sync> = match config.policy {\n            EvictionPolicy::Random => {\n                Arc::new(RandomPolicy::new(store_engine, config.memory_limit))\n            }\n            EvictionPolicy::None => store_engine,\n        };\n        store', '        if let EvictionPolicy::Random = config.policy {\n            return Arc::new(RandomPolicy::new(store_engine, config.memory_limit));\n        }\n        store_engine'))
 neutral("N.delete-policy-inspect", 'policy delete credits the usage through Result::inspect',
         ('memcrs/src/memcache/random_policy.rs', '        let result = self.store.delete(key, header);\n        if let Ok(record) = &result {\n            self.decr_mem_usage(record.len() as u64);\n        }\n        result', '        self.store.delete(key, header).inspect(|record| {\n            self.decr_mem_usage(record.len() as u64);\n        })'))
+neutral("N.ms-get-override", "MemoryStore overrides Cache::get with the same two steps",
+        ('memcrs/src/memory_store/store.rs', 'impl Cache for MemoryStore {\n', 'impl Cache for MemoryStore {\n    fn get(&self, key: &KeyType) -> Result<Record> {\n        let record = impl_details::CacheImplDetails::get_by_key(self, key)?;\n        if impl_details::CacheImplDetails::check_if_expired(self, key, &record) {\n            return Err(CacheError::NotFound);\n        }\n        Ok(record)\n    }\n\n'))
 neutral("N.request-valid-reordered", "request_valid tests in another order and with <=",
         (CODEC, "        if self.header.extras_length > 20 {\n            return false;\n        }\n\n        if self.header.key_length > 250 {\n            return false;\n        }", "        if self.header.key_length >= 251 {\n            return false;\n        }\n\n        if !(self.header.extras_length <= 20) {\n            return false;\n        }"))
 neutral("N.handler-get-key-len-once", "hit response computes key length once",
